@@ -2,6 +2,10 @@ package h
 
 import (
 	"fmt"
+
+	"github.com/mlange-42/arche/ecs"
+	"github.com/mlange-42/arche/ecs/event"
+	"github.com/mlange-42/arche/listener"
 )
 
 // c19Interleaved: three worlds with the same component types at the same IDs are driven in turns by ONE goroutine -
@@ -40,6 +44,37 @@ func c19Interleaved(c *Ctx) {
 	last := make([]string, n)
 	for i := range ss {
 		last[i] = digest(ss[i])
+	}
+	if c.Case%3 == 0 {
+		// one world keeps the query of a batch creation open (it is inspecting what it created) while another world
+		// runs more than a thousand batch operations; then the first one finishes its query
+		ha, hb := ecs.NewWorld(), ecs.NewWorld()
+		ia := []ecs.ID{ecs.TypeID(&ha, TypeOfKey("S0")), ecs.TypeID(&ha, TypeOfKey("S1"))}
+		ib := []ecs.ID{ecs.TypeID(&hb, TypeOfKey("S2")), ecs.TypeID(&hb, TypeOfKey("S0")), ecs.TypeID(&hb, TypeOfKey("S1"))}
+		events := 0
+		cb := listener.NewCallback(func(w *ecs.World, e ecs.EntityEvent) { events++ }, event.EntityCreated)
+		ha.SetListener(&cb)
+		nA := 20 + c.R.Intn(100)
+		q := ecs.NewBuilder(&ha, ia...).NewBatchQ(nA)
+		ecs.NewBuilder(&hb, ib[0]).NewBatch(3)
+		fAdd := ecs.All(ib[0]).Without(ib[1])
+		fRem := ecs.All(ib[0], ib[1])
+		for k := 0; k < 1100+c.R.Intn(400); k++ {
+			if k%2 == 0 {
+				hb.Batch().Add(&fAdd, ib[1])
+			} else {
+				hb.Batch().Remove(&fRem, ib[1])
+			}
+		}
+		cnt, seen := q.Count(), 0
+		for q.Next() {
+			seen++
+		}
+		if cnt != nA || seen != nA || events != nA {
+			c.Fail(Violation{Kind: "crosstalk.openbatch", Msg: fmt.Sprintf("a world created %d entities with NewBatchQ and kept the query open while another world ran batch operations: Count()=%d, iterated %d, creation events %d", nA, cnt, seen, events)}, nil)
+			return
+		}
+		c.Cov.N["batch_query_held_open_across_1000_foreign_batches"]++
 	}
 	users := map[int]map[int]bool{} // filter slot -> worlds that used it
 	crossReg := 0
